@@ -9,7 +9,8 @@ _OPS = ['op_nop', 'op_verify', 'op_return', 'op_2drop', 'op_2dup', 'op_3dup', 'o
         'op_numgreaterthanorequal', 'op_checklocktimeverify', 'op_checksequenceverify', 'op_nop1', 'op_nop4', 'op_nop5', 'op_nop6', 'op_nop7', 'op_nop8', 'op_nop9', 'op_nop10']
 CONTRACTS = ['bitcoinlib.scripts.Stack.' + o for o in _OPS] + [
     'bitcoinlib.scripts.encode_num', 'bitcoinlib.scripts.decode_num', 'bitcoinlib.scripts.decode_num[roundtrip]',
-    'spec.script.script_num_decode[facts]', 'spec.script.cast_to_bool[facts]']
+    'spec.script.script_num_decode[facts]', 'spec.script.cast_to_bool[facts]',
+    'bitcoinlib.scripts.Stack.op_verify[long-items-native]', 'bitcoinlib.scripts.Stack.op_ifdup[long-items-native]']
 LEVEL = 'proof'
 LEVEL_TEXT = ('Each of 53 Stack.op_* methods and encode_num/decode_num is verified, for stacks of ANY depth holding byte strings of ANY '
               'length, against the consensus effect of the opcode transcribed from the reference interpreter (spec/script.py): same final '
